@@ -5,7 +5,7 @@ import subprocess
 import vlib
 
 LIBS = ("-lboost_timer", "-lboost_program_options", "-lboost_thread", "-ltbb", "-lpthread")
-RULE = ("library: every sequence of 1..L calls set_global_tbb_concurrency(n), n in {1,2,3,5,16}, each call issued from one of three call sites (two translation units on the main thread - the header's inline function is expanded in both - and a fresh thread that ends right after the call), each sequence in a fresh process; after every call "
+RULE = ("library: every sequence of 1..L calls set_global_tbb_concurrency(n), n in {1,2,3,5,16}, each call issued from one of three call sites (two translation units on the main thread - the header's inline function is expanded in both - and a fresh thread that ends right after the call) and with the number held as std::size_t, int or unsigned, each sequence in a fresh process; after every call "
         "tbb::global_control::active_value(max_allowed_parallelism) must equal n (a parallel_for runs between calls so the scheduler is live); after the sequence a library call "
         "(mcb_sva_signed_tbb on K4) must still see the last value. demos: mcb-dimacs.cpp and approx-mcb-dimacs.cpp run in-process (main renamed) for every combination of "
         "algorithm options {default, fvstrees, isotrees, --signed=false alone, all three false, signed+fvstrees} x verbose x printcycles x cores in {1,2,3} (x k in {2,3}) with --parallel=true; active_value is sampled when the demo prints its 'Using ..._TBB' line. "
